@@ -224,7 +224,7 @@ namespace bluetoe {
      * @sa include_service
      */
     template < typename ... Options >
-    struct secondary_service : service< Options..., is_secondary_service > {};
+    using secondary_service = service< Options..., is_secondary_service >;
 
     /**
      * @brief includes an other service into the defined service
